@@ -31,6 +31,14 @@ class ProcResult:
         self.escaped = escaped
 
 
+class _Named(io.BytesIO):
+    """The byte buffer behind a standard stream; like the interpreter's, it has a name."""
+
+    def __init__(self, data: bytes = b"", name: str = "") -> None:
+        super().__init__(data)
+        self.name = name
+
+
 def run_cli(argv: List[str], stdin_bytes: bytes, fs: SimFS) -> ProcResult:
     """One simulated ``python -m jsonpath <argv>`` invocation.
 
@@ -55,7 +63,7 @@ def run_cli(argv: List[str], stdin_bytes: bytes, fs: SimFS) -> ProcResult:
 
     had_open = "open" in argparse.__dict__
     old_open = argparse.__dict__.get("open")
-    out_b = io.BytesIO()
+    out_b = _Named(name="<stdout>")
     err_s = io.StringIO()
     stdout = io.TextIOWrapper(out_b, encoding="utf-8", errors="strict", write_through=True)
     escaped: Optional[str] = None
@@ -63,7 +71,7 @@ def run_cli(argv: List[str], stdin_bytes: bytes, fs: SimFS) -> ProcResult:
     try:
         sys.argv = ["json"] + list(argv)
         # like the interpreter on POSIX: no newline translation on stdin
-        sys.stdin = io.TextIOWrapper(io.BytesIO(stdin_bytes), encoding="utf-8", errors="strict", newline="\n")
+        sys.stdin = io.TextIOWrapper(_Named(stdin_bytes, name="<stdin>"), encoding="utf-8", errors="strict", newline="\n")
         sys.stdout = stdout
         sys.stderr = err_s
         argparse.open = fs.open  # type: ignore[attr-defined]
